@@ -101,6 +101,22 @@ theorem pending_close_only_owner (w : ActWorld) (isOwner hasRole : Bool)
     simp [hp, AState.terminal] at this; exact this
   · simp [actStep, hc] at h
 
+/-- **the funds receiver is not the owner**: an action created with a separate receiver can be closed by that
+receiver only under the keeper rules (it holds the keeper role AND the action is terminal or the instruction
+skips the completion check) — never as the owner, and never while the action is pending. -/
+theorem receiver_cannot_close_as_owner (hasRole : Bool) (s : AState) (skip : Bool) :
+    closePreprocessBy .receiver true hasRole s skip ≠ .asOwner ∧
+    (closePreprocessBy .receiver true hasRole .pending false = .denied) ∧
+    (closePreprocessBy .receiver true false s skip = .denied) := by
+  cases hasRole <;> cases s <;> cases skip <;> decide
+
+/-- … while the owner is always the owner, whatever receiver is recorded; and without a separate receiver the
+"receiver" IS the owner -/
+theorem owner_closes_regardless_of_receiver (rd hasRole : Bool) (s : AState) (skip : Bool) :
+    closePreprocessBy .owner rd hasRole s skip = .asOwner ∧
+    closePreprocessBy .receiver false hasRole s skip = .asOwner := by
+  cases rd <;> cases hasRole <;> cases s <;> cases skip <;> decide
+
 /-- a stranger (not the owner, no keeper role) can never close. -/
 theorem stranger_cannot_close (w : ActWorld) (skip : Bool) :
     actStep w (.close false false skip) = none := by
